@@ -11,6 +11,7 @@ mod clicase;
 mod dict;
 mod filt;
 mod examples;
+mod fd;
 mod gen_bin;
 mod gen_pred;
 mod gen_sent;
@@ -45,6 +46,7 @@ fn main() {
                 "C20" => clicase::gen(&mut out, thorough, seed),
                 "TL" => traincli::gen(&mut out, thorough, seed),
                 "AC" => ac::gen(&mut out, thorough, seed),
+                "FD" => fd::gen(&mut out, thorough, seed),
                 "WA" | "EB" => examples::gen(&mut out, family, thorough, seed),
                 "C19" => dict::gen(&mut out, thorough, seed),
                 "C17" => kytea::gen(&mut out, thorough, seed),
@@ -150,6 +152,7 @@ fn run_case(line: &str, fails: &mut Vec<(String, String)>, effective: &mut Optio
         ["TR", ..] => train::run(&toks, fails, effective),
         ["TL", ..] => traincli::run(&toks, fails),
         ["AC", ..] => ac::run(&toks, fails),
+        ["FD", ..] => fd::run(&toks),
         ["WA", ..] | ["EB", ..] => examples::run(&toks, fails),
         [k, ..] if matches!(*k, "KY" | "KYE" | "KYX") => kytea::run(&toks, fails),
         [k, ..] if matches!(*k, "RD" | "WJ" | "WP" | "DF" | "LF") => dict::run(&toks, fails),
